@@ -297,14 +297,14 @@ impl ModelServer {
                     if exceptions.len() > 1 {
                         labels.push("read:several_exceptions");
                     }
-                    exceptions
-                        .into_iter()
-                        .map(|code| Outcome {
-                            reply: Some(exception_pdu(fc, code)),
-                            calls: calls.clone(),
-                            ..base.clone()
-                        })
-                        .collect()
+                    // a reference server evaluates the points in address order: the exception of
+                    // the lowest failing address is the one reported
+                    let code = exceptions[0];
+                    vec![Outcome {
+                        reply: Some(exception_pdu(fc, code)),
+                        calls,
+                        ..base
+                    }]
                 }
             }
             _ => {
